@@ -196,7 +196,7 @@ type wLocalFault struct {
 	Side string `json:"side"` // "client" | "server" (the side whose thread makes the call)
 	Hook string `json:"hook"` // fileWrite | fileRead | archiveRead | archiveWrite
 	K    int    `json:"k"`
-	Kind string `json:"kind"` // "err" (the call fails) | "shrink" (the source file is truncated on disk just before the call) | "slow" (the call takes 1 s)
+	Kind string `json:"kind"` // "err" (the call fails) | "shrink" (the source file is truncated on disk just before the call) | "slow" (the call takes 1 s) | "slowerr" (the call takes 1 s and then fails)
 }
 
 // wFault is one byte-level fault at an absolute offset of one direction of the connection.
@@ -385,6 +385,10 @@ func treeRecipe(name string) (entries []treeEntry, tops []string) {
 		file("d/sub/y.bin", 'R', 7, 600)
 		file("top.txt", 'T', 9, 200)
 		tops = []string{"d", "top.txt"}
+	case name == "emptytop": // a top-level directory without children, and a file
+		dir("spool")
+		file("note.txt", 'T', 19, 250)
+		tops = []string{"spool", "note.txt"}
 	case name == "samebase": // the same base name twice, from two directories
 		dir("p1")
 		dir("p2")
@@ -851,6 +855,10 @@ func buildWorld(p wParams) *world {
 					}
 				}
 				return nil
+			}
+			if lf.Kind == "slowerr" {
+				// a disk that takes a second over the call before it reports the failure (a full network file system)
+				vs.Sleep(time.Second)
 			}
 			return fmt.Errorf("injected %s failure", name)
 		}
